@@ -240,7 +240,7 @@ def make_field(rng, pos, fam_out):
     if k == "lit":
         size = rng.randrange(1, 21)
         w = rng.randrange(0, size + 1)
-        alpha = "abcdefXYZ0123456789-_/.,;:éñßÇ" + "   "
+        alpha = "abcdefXYZ0123456789-_/.,;:éñßÇ" + "   " + ("\xa0\u2003" if rng.random() < 0.1 else "")
         s = "".join(rng.choice(alpha) for _ in range(w))
         v = rng.choice([{"s": codec.enc_str(s)}] * 4 + [None, {"s": []}])
         return codec.fd_lit(size, pos), v
